@@ -11,20 +11,20 @@ import (
 // Verification hooks for property C31 (every built message fits the transport limit).
 // Compiled only with -tags verif.
 
-// VerifAttachPeer gives the node an unconnected p2p.Peer (what addRelayersFromConfig
+// VerifC31AttachPeer gives the node an unconnected p2p.Peer (what addRelayersFromConfig
 // creates first), so that the real send path can run without any network.
-func (node *Node) VerifAttachPeer() *p2p.Peer {
+func (node *Node) VerifC31AttachPeer() *p2p.Peer {
 	node.Peer = p2p.NewPeer(node, node.IdForNetwork, ":0", false)
 	return node.Peer
 }
 
-// VerifPopAndProcessCacheQueue runs one pass of the proposal batcher.
-func (node *Node) VerifPopAndProcessCacheQueue() int {
+// VerifC31PopAndProcessCacheQueue runs one pass of the proposal batcher.
+func (node *Node) VerifC31PopAndProcessCacheQueue() int {
 	return node.popAndProcessCacheQueue()
 }
 
-// VerifWorkingAcceptedNodes lists the ids popAndProcessCacheQueue may send to.
-func (node *Node) VerifWorkingAcceptedNodes(timestamp uint64) []crypto.Hash {
+// VerifC31WorkingAcceptedNodes lists the ids popAndProcessCacheQueue may send to.
+func (node *Node) VerifC31WorkingAcceptedNodes(timestamp uint64) []crypto.Hash {
 	var ids []crypto.Hash
 	for _, cn := range node.ListWorkingAcceptedNodes(timestamp) {
 		ids = append(ids, cn.IdForNetwork)
@@ -32,9 +32,9 @@ func (node *Node) VerifWorkingAcceptedNodes(timestamp uint64) []crypto.Hash {
 	return ids
 }
 
-// VerifMockRunAggregators toggles the test switch that keeps BootChain from starting the
+// VerifC31MockRunAggregators toggles the test switch that keeps BootChain from starting the
 // per-chain background loops; returns the previous value.
-func VerifMockRunAggregators(mock bool) bool {
+func VerifC31MockRunAggregators(mock bool) bool {
 	old := internal.MockRunAggregators()
 	internal.ToggleMockRunAggregators(mock)
 	return old
